@@ -139,6 +139,9 @@ class C10(Prop):
                 c['param'] = rng.choice([-0.01, 1.01, -1.0, 1.5, -1e-9, -1e-12, 1.0 + 1e-9, 1.000001, 1.0 + 2.0 ** -40, -5e-324])
             else:
                 c['weights'] = []
+        if rng.random() < 0.3:
+            ws = [[a, abs(w) if True else w] for a, w in c['weights']]
+            c['warmup_calls'] = [ws + [['EQ:WARM1', 0.5], ['EQ:WARM2', 0.25]], [['EQ:WARM2', 1.0]]][:rng.randint(1, 2)]
         return c
 
     def gen(self, rng, tier):
@@ -187,6 +190,9 @@ class C10(Prop):
         total = Fraction(0)
         j.tags.append('normalised' if norm else 'raw-weights')
         if c['equity'] <= 0 or any(p <= 0 for p in prices.values()):
+            return j
+        if sorted(a for a, _ in impl[1]) != sorted(a for a, _ in c['weights']):
+            out.append('the target covers %s, the weighted assets are %s' % (sorted(a for a, _ in impl[1]), sorted(a for a, _ in c['weights'])))
             return j
         for (a, q), ty in zip(impl[1], impl[2]):
             A, fees, p = fig[a]
